@@ -345,6 +345,8 @@ def binop(op, a, b):
     if op is operator.mul:
         return sym_mul(a, b)
     if op is operator.lshift or op is operator.rshift:
+        if not is_sym(a) and a == 0:
+            return 0
         if blo < 0:
             if _feasible_neg(b):
                 raise Unsupported('possibly negative shift count')
